@@ -135,6 +135,42 @@ def check_pair(pair):
     return out
 
 
+EFFECTFUL = ["pool-size 7", "lock", "unlock", "apply " + VW + "work", "apply " + VW + "work --num 2", "cancel 0", "cancel-all",
+             "map " + VW + "work [1,2]", "flush", "is-locked"]
+
+
+def check_triple(pair):
+    """a line with an effect, then the same state-neutral line twice: the second copy is answered like the first and
+    alters nothing (nothing of an earlier command is replayed)."""
+    a, b = pair
+    loop = fresh_loop()
+    rec = vw.Recorder(loop)
+    vw.ACTIVE = rec
+    pool = TaskPool(pool_size=2)
+    pool.apply(vw.work, num=1)
+    loop.run_idle()
+    s = Session(loop, pool, 80)
+    loop.run_idle()
+    s.take()
+    out = []
+    replies = []
+    obs = []
+    for ln in (a, b, b):
+        s.send(ln)
+        loop.run_idle()
+        replies.append(s.take())
+        obs.append(pool_obs(pool, rec))
+    shutdown(loop)
+    if any(len(r) != 1 for r in replies):
+        out.append({"key": "not exactly one reply for a line", "lines": [a, b, b], "reply": repr(replies)[:300]})
+    elif replies[2] != replies[1]:
+        out.append({"key": "a repeated state-neutral line is answered differently the second time", "lines": [a, b, b],
+                    "reply": repr(replies[1:])[:400]})
+    if obs[2] != obs[1] or obs[1] != obs[0]:
+        out.append({"key": "malformed line / help request altered the pool", "lines": [a, b, b], "reply": repr(obs)[:400]})
+    return out
+
+
 def _chunk(fn_items):
     fn, items = fn_items
     out = []
@@ -202,11 +238,13 @@ def run(tier, seed):
                 lines.add(f"!{tags}! {c} {v}")
     lines = sorted(ln for ln in lines if ln.strip())
     pairs = [(a, b) for a in NEUTRAL for b in NEUTRAL]
+    triples = [(a, b) for a in EFFECTFUL + NEUTRAL for b in NEUTRAL if b != "flush"]
     viols = []
     n_lines = n_pairs = 0
     jobs = min(16, os.cpu_count() or 1)
     ctx = mp.get_context("fork")
     chunks = [(check_line, lines[i::jobs * 8]) for i in range(jobs * 8)] + [(check_pair, pairs[i::jobs]) for i in range(jobs)]
+    chunks += [(check_triple, triples[i::jobs]) for i in range(jobs)]
     with ctx.Pool(jobs) as pool:
         for k, (n, vs) in enumerate(pool.imap(_chunk, chunks, chunksize=1)):
             if k < jobs * 8:
@@ -242,14 +280,14 @@ def run(tier, seed):
         "exhaustive": not incomplete,
         "samples": [{"line": lines[len(lines) // 3]}, {"pair": list(pairs[7])}, {"explorer_cell": cells[1]["name"], "scenario": cells[1]["scen"]}],
         "coverage": {
-            "lines_enumerated": n_lines, "max_tokens": L + 1, "token_alphabet": len(toks), "reply_isolation_pairs": n_pairs,
+            "lines_enumerated": n_lines, "max_tokens": L + 1, "token_alphabet": len(toks), "reply_isolation_pairs": n_pairs - len(triples), "effect_then_repeated_line_triples": len(triples),
             "explorer_cells": per_cell, "cells_incomplete": incomplete,
         },
         "rule": "(a) every line of <= %d tokens over the command names + a value/junk alphabet (and <= %d tokens over a reduced "
                 "alphabet), each in a fresh real session: exactly one reply (until-closed: exactly one when the pool closes), "
                 "session alive and answering a follow-up, error/help replies and unknown commands leave the pool unchanged, nothing "
                 "on stdout/stderr, no exception/SystemExit escapes; (b) all ordered pairs of %d state-neutral lines: the second "
-                "reply equals that line's reply in a fresh session; (c)+(d) explorer over all interleavings of loop iterations, "
+                "reply equals that line's reply in a fresh session, and every (line with an effect or neutral line) followed by the same neutral line twice: both copies answered alike, pool unchanged; (c)+(d) explorer over all interleavings of loop iterations, "
                 "lines of 1-4 concurrent sessions, worker/callback completions and a direct gather_and_close(): waiting "
                 "commands answer exactly once and only when their wait is over, replies of concurrent sessions equal their "
                 "single-session reference" % (L, L + 1, len(NEUTRAL)),
@@ -263,7 +301,10 @@ def replay(v):
         r = check_line(v["line"])
         return r[0] if r else None
     if "lines" in v:
-        r = check_pair(tuple(v["lines"])) if len(v["lines"]) == 2 else None
+        if len(v["lines"]) == 3:
+            r = check_triple((v["lines"][0], v["lines"][1]))
+        else:
+            r = check_pair(tuple(v["lines"])) if len(v["lines"]) == 2 else None
         return r[0] if r else None
     if "choices" in v:
         from aiomc import explorer
